@@ -115,3 +115,10 @@ Proof.
   exists s, h'. vm_compute in Es. injection Es as <-. vm_compute in Eh. injection Eh as <-.
   repeat split; vm_compute; reflexivity.
 Qed.
+
+(* ---- metadata as the harness interns it (canonical JSON text -> N, 0 = the empty dictionary): the two metadata
+   hypotheses hold, the composed theorem has no hypothesis at all ---- *)
+Lemma is0_nil : is0 0%N = true.
+Proof. reflexivity. Qed.
+Lemma is0_unique : forall m, is0 m = true -> m = 0%N.
+Proof. intros m H. now apply N.eqb_eq in H. Qed.
